@@ -297,6 +297,14 @@ def decl_syntax_correspondence(ctx, model, toks_src, toks_out, src):
             want = "D " + D.collapse(ho[key]) + " | roundtrip-ok"
             if rep != want:
                 ctx.corr_problems.append(("decl-syntax", f"{key[0]} {key[1]}: exppp `{want[2:]}` vs model `{rep[2:]}`", src)); return
+        blocks = D.local_blocks(toks_out)
+        for ls in D.scopes_with_locals(D.parse_schema(toks_src)):
+            rep = model.ask(f"locals {len(ls)} " + " ".join(f"{X.hx(n)} {1 if init is not None else 0} {D.enc_ty(t)}" for n, t, init in ls))
+            ctx.hist("correspondence", "declaration syntax: LOCAL block")
+            names = tuple(n for n, _, _ in ls)
+            want = "D " + D.collapse_locals(blocks[names]) + " | roundtrip-ok"
+            if rep != want:
+                ctx.corr_problems.append(("decl-syntax", f"LOCAL block {names}: exppp `{want[2:]}` vs model `{rep[2:]}`", src)); return
     except (D.DeclError, KeyError, IndexError) as ex:
         ctx.corr_problems.append(("decl-syntax", f"cannot compare declaration syntax: {type(ex).__name__} {ex}", src))
 
